@@ -682,6 +682,14 @@ fn gen_bytes(rng: &mut Rng, force_bad: bool) -> Vec<u8> {
         "\u{10000}\u{10ffff}".as_bytes(),
         b"/slash",
     ];
+    // whole values whose text looks like a value of another type (address, number, JSON)
+    const LOOKALIKE: [&[u8]; 10] = [
+        b"10.0.0.1", b"::1", b"255.255.255.255", b"2001:db8::1", b"1", b"-7", b"true", b"null", b"[1]", b"{}",
+    ];
+    if !force_bad && rng.chance(1, 8) {
+        let g: &[u8] = *rng.pick(&LOOKALIKE);
+        return g.to_vec();
+    }
     let mut out = Vec::new();
     let n = if force_bad { 1 + rng.below(2) } else { rng.below(3) };
     for _ in 0..n {
@@ -1062,8 +1070,11 @@ fn mutate(doc: &Jv, case: &Case, rng: &mut Rng) -> (Jv, &'static str) {
             let other: Vec<String> = case.fields.iter().map(|f| f.name.clone()).collect();
             if let Jv::Obj(xs) = node_mut(&mut j, &p) {
                 let i = rng.below(xs.len() as u64) as usize;
-                xs[i].0 = match rng.below(7) {
+                xs[i].0 = match rng.below(9) {
                     0 => "nosuchfield".into(),
+                    // long unknown names with multi-byte characters at various byte offsets
+                    7 => format!("{}\u{e9}{}", "k".repeat(rng.below(140) as usize), "z".repeat(rng.below(5) as usize)),
+                    8 => format!("{}\u{1F600}\u{e9}", "n".repeat(60 + rng.below(10) as usize)),
                     1 => "$lists".into(),
                     2 => "type".into(),
                     3 => "data".into(),
